@@ -11,7 +11,11 @@ Strings travel hex-encoded (two lower-case hex digits per byte, `-` for the empt
     → `404` | `robots` | `500` | `proxy <path> <name>=<v>,<v>;…` over the watched header names.
 * `wreq <base> <ua> <method> <target> <remote> (<name> <value>)*`
     → `rejected` when `net/http` refuses the origin-form request target, otherwise as `req` with the
-      path that `parseTarget` derives from the raw target. -/
+      path that `parseTarget` derives from the raw target.
+* `fl <base> <ua> <events> (<method> <target> <remote> <nhdr> (<name> <value>)*)*`
+    → what the backend receives, in order, under the schedule `<events>` (comma-separated `r<i>` =
+      request `i` runs up to and including `Rewrite`, `s<i>` = the transport writes request `i`) over
+      the listed requests: `<i>:<method>:proxy <path> <headers>` joined by ` | `, or `-`. -/
 namespace Agd.Driver.C19
 open Agd.LinkIP Agd.Driver
 
@@ -60,6 +64,28 @@ def showResp : Resp → String
   | .err500 => "500"
   | .proxied path h => "proxy " ++ hex path ++ " " ++ showHdrs h
 
+partial def parseReqs : List String → List Req
+  | m :: t :: remote :: n :: rest =>
+    let k := nat! n
+    let r : Req :=
+      match parseTarget (unhex t) with
+      | some p => { method := unhex m, path := p, remote := unhex remote, hdrs := parseHdrs (rest.take (2 * k)) }
+      | none => { method := [], path := [], remote := [], hdrs := [] }
+    r :: parseReqs (rest.drop (2 * k))
+  | _ => []
+
+def parseEvs (s : String) : List Ev :=
+  (s.splitOn ",").filterMap fun w =>
+    match w.toList with
+    | 'r' :: ds => some (.rewrite (nat! (String.ofList ds)))
+    | 's' :: ds => some (.send (nat! (String.ofList ds)))
+    | _ => none
+
+def showLog (l : List (Nat × Out)) : String :=
+  if l.isEmpty then "-"
+  else " | ".intercalate (l.map fun io =>
+    toString io.1 ++ ":" ++ hex io.2.method ++ ":" ++ showResp (.proxied io.2.path io.2.hdrs))
+
 def step (s : Unit) : List String → Unit × String
   | ["sp", m, p] => (s, showB (shouldProxy (unhex m) (unhex p)))
   | ["norm", p] => (s, hex (normalize (unhex p)))
@@ -78,6 +104,9 @@ def step (s : Unit) : List String → Unit × String
           let e : Env := { base := unhex base, reqID := reqID, ua := unhex ua }
           let r : Req := { method := unhex m, path := p, remote := unhex remote, hdrs := parseHdrs hs }
           showResp (serve e r))
+  | "fl" :: base :: ua :: evs :: rs =>
+    let e : Env := { base := unhex base, reqID := reqID, ua := unhex ua }
+    (s, showLog (runFlight .none e (parseReqs rs) (parseEvs evs)).log)
   | _ => (s, "bad-op")
 
 def main : IO Unit := loop step ()
